@@ -63,6 +63,7 @@ class Script(Behaviour):
         self.drop_at = drop_at
         self.transport = transport
         self.reported = {}                   # index -> X value reported for that statement
+        self.reported_on_ack = {}            # index -> T value carried by the acknowledgement line itself
         self.async_error_after = dict(async_after or {})   # index -> error line sent while idle
         self.async_gap = 0.05
         self.extra_gap = 0.0
@@ -92,7 +93,8 @@ class Script(Behaviour):
             return self.errors_at[index]
         if index in self.report_at and self.transport == "serial" and self.rng.random() < 0.5:
             # Marlin also reports temperatures on the acknowledgement line itself
-            return b"ok T:%d.5 /0.0 B:21.0 /0.0" % (100 + index)
+            self.reported_on_ack[index] = 100 + index + 0.5
+            return b"ok T:%d.5 /0.0 B:21.0 /0.0 C:%d.5 /0.0 @:0 B@:0" % (100 + index, 100 + index)
         return b"ok"
 
     def drop_connection(self, dev, index, line):
@@ -166,7 +168,7 @@ def run_scenario(ctx, col, case, tag, rng, transport, regime, lat, n, errors_at,
             except Exception as e:
                 out, err = "other", repr(e)
             t_ret = time.monotonic_ns()
-            client.append((i, t_call, t_ret, out, err, w.get_parameter("X"), w.get_parameter("T")))
+            client.append((i, t_call, t_ret, out, err, w.get_parameter("X"), w.get_parameter("C")))
             if async_after and i in async_after:
                 time.sleep(0.3)     # the caller is idle while the device reports the asynchronous error
             if drop_at is not None and out != "ok":
@@ -297,6 +299,13 @@ def analyse(ctx, col, case, info, dev, beh, statements, client, state):
             col.count("readings_checked")
             if xread != beh.reported[i]:
                 reading_fail.append(i)
+        if i in beh.reported_on_ack and out == "ok" and i not in strict_fail:
+            # the last value of the acknowledgement line (C) is stored last: it is the one a caller
+            # can miss if the acknowledgement is signalled before the line is parsed
+            col.count("readings_checked")
+            col.count("ack_line_readings_checked")
+            if tread != beh.reported_on_ack[i]:
+                reading_fail.append(i)
     # weak (regime independent) safety: every return needs its own device reply.  Replies stamped up
     # to 0.5 s before the first call may still be in flight to the client (serial read poll), so they
     # count; at the k-th return at least k final replies must have been stamped.
@@ -327,7 +336,8 @@ def analyse(ctx, col, case, info, dev, beh, statements, client, state):
         if late_errors:
             return fail("error-reply-not-raised-by-the-write-of-that-statement", indices=late_errors, mech=mech)
         return fail("reading-not-available-when-write-returned", indices=reading_fail,
-                    readings=[(i, client[i][5], beh.reported[i]) for i in reading_fail], mech=mech)
+                    readings=[(i, client[i][5], beh.reported.get(i), client[i][6], beh.reported_on_ack.get(i))
+                              for i in reading_fail], mech=mech)
     # 5. disconnect(wait=True) after everything was acknowledged --------------------------------------
     if state["disconnect_t"] is not None and info["drop_at"] is None:
         last = max((t for t, _ in acks.values()), default=0)
